@@ -57,6 +57,8 @@ pub struct GState {
     pub auto_release: Vec<String>,
     /// hold gated operations a third time: inside the store call, before they queue for the writer lock
     pub inner_gated: bool,
+    /// when set, only operations whose description starts with this are held at the gates
+    pub hold_only: Option<String>,
     /// mode 2: park at EVERY hook point that precedes an access to shared state (writer lock and
     /// KeyDir shards), up to a budget per operation
     pub inner_all: bool,
@@ -163,7 +165,7 @@ impl GateKv {
         {
             let mut st = g.m.lock().unwrap();
             id = st.ops.len();
-            let gated = st.gated && !st.auto_release.iter().any(|p| desc.starts_with(p.as_str()));
+            let gated = st.gated && !st.auto_release.iter().any(|p| desc.starts_with(p.as_str())) && st.hold_only.as_ref().map_or(true, |p| desc.starts_with(p.as_str()));
             let inner = gated && st.inner_gated;
             let budget = if inner && st.inner_all { 3 } else { 0 };
             st.ops.push(OpRec { desc, lop, released_before: !gated, entered: 0, done: false, exited: 0, released_after: !gated, result: None, at_inner: false, released_inner: !inner, inner_budget: budget, at_writer_gate: false });
@@ -263,6 +265,12 @@ impl Gate {
         let mut st = self.m.lock().unwrap();
         st.ops[id].released_inner = true;
         self.cv.notify_all();
+    }
+    /// Hold only the operations whose description starts with `prefix` (everything else passes).
+    pub fn hold_only(&self, prefix: String) {
+        let mut st = self.m.lock().unwrap();
+        st.gated = true;
+        st.hold_only = Some(prefix);
     }
     pub fn set_inner_gated(&self, on: bool) {
         self.m.lock().unwrap().inner_gated = on;
@@ -1119,6 +1127,21 @@ fn c06(job: &Job, sh: &mut Shard, t0: Instant) {
         let ls: Vec<usize> = if job.tier == Tier::Quick { (8176..8196).step_by(1).collect() } else { (8160..8210).chain(16_360..16_400).chain(65_520..65_545).collect() };
         for l in ls {
             sw.push(vec![Req::Set(a(), vec![b'q'; l]), Req::Get(a()), Req::Get(a()), Req::Set(b_(), b"x".to_vec()), Req::Get(b_()), Req::Get(a())]);
+        }
+        // reply headers with one digit more (9 999 / 10 000, 99 999 / 100 000) after small replies that
+        // already sit in the write buffer; the second GET of a large value on the same connection
+        for l in (9_990usize..=10_010).chain(99_990..=100_010).step_by(if job.tier == Tier::Quick { 3 } else { 1 }) {
+            for k in [0usize, 3] {
+                let mut w = vec![Req::Set(a(), b"s".to_vec())];
+                w.extend((0..k).map(|_| Req::Get(a())));
+                w.push(Req::Set(b_(), vec![b'w'; l]));
+                w.push(Req::Get(b_()));
+                w.push(Req::Get(a()));
+                w.push(Req::Get(b_()));
+                w.push(Req::Del(vec![b"none".to_vec()]));
+                w.push(Req::Get(b_()));
+                sw.push(w);
+            }
         }
         for kl in [255usize, 256, 300, 8191, 8192, 8193, 70_000] {
             let k = vec![b'K'; kl];
